@@ -123,7 +123,7 @@ CHECKS["C12"] = {
     "level": "exploration",
     "rule": ("rapid-generated close events over running virtual-time scenarios: 1-5 Close calls by client/server (same or different instants, concurrent callers), at drawn moments (0, mid-burst, around resend/ping periods), "
              "with Send blocked on a full window, Recv blocked, unacknowledged data, faults active, transport working or black-holed, and applications that never call Recv on one or both ends (receive buffer full at Close); context cancellation during NewClientConn/NewServerConn; and (real time) a transport whose sendFunc blocks. "
-             "Oracles: every Close returns within FIN send timeout (1s) + 50ms of virtual time; blocked Send/Recv return errors and later calls fail within 50ms; over a working transport the peer's calls fail within one latency + 50ms; "
+             "Oracles: every Close returns within FIN send timeout (1s) + 50ms of virtual time; every endpoint whose Close returned has handed a FIN to the transport (by this Close or an earlier self-close) unless the peer's FIN had reached it first; blocked Send/Recv return errors and later calls fail within 50ms; over a working transport the peer's calls fail within one latency + 50ms; "
              "10 virtual minutes after both ends are closed no goroutine with a frame of the code under test remains in the bubble (runtime.Stack) and synctest reports no blocked goroutine. "
              "The same Close oracles are applied to mailbox.ClientConn / ServerConn over the in-memory relay in virtual time (TestC12MailboxClose: who/when/how many callers/traffic in flight/FIN deliverable or swallowed; Done() closed, peer notices by FIN within one latency or by the 5s/7s/3s keepalive, later Write fails, no goroutine left). TestC12SelfClose: the connection is closed by one of its own loops instead of the application - a frame its receive loop cannot decode (14 kinds: empty, truncated DATA/ACK/NACK/SYN, unknown types, SYN/SYNACK in the data phase), a recvFunc error (io.EOF or other), or one failed sendFunc call, at a drawn moment of a conversation in which both applications read and write, round trip below every timeout, no keepalive, optionally followed by the application's own Close: "
              "the endpoint's blocked Recv fails, a FIN is handed to the peer within one latency + 100 ms (the direction towards the peer works), the peer's blocked and later calls fail, and nothing is left running. "
@@ -146,7 +146,7 @@ CHECKS["C10"] = {
              "Safety oracle: a server attempt that enters the data phase has n (hook) equal to a SYN value that was handed to it, n != 255 and s = n+1; when data flows between the client and a server attempt their n agree; every SYNACK the client sends follows a SYN reply that carried the client's own N (trace). "
              "Progress oracle: within 10 x (4*handshake + 4*resend + ping+pong + retry + RTT + start offset) after the faults ceased some pair of live attempts has exchanged a message in both directions. "
              "Second unit (TestC10Recovery): ONE client attempt against ONE server attempt, no retry loops, no stale packets, keepalive off (or only the client's first ping): only handshake packets are lost - 0-3 rounds of 'SYN lost' / 'SYN reply lost' in any order, then the SYNACK lost (3 in 4) - "
-             "with the client's first DATA packet or keepalive ping kept behind the expiry of the server's boosted handshake timeout; the handshake repairs each of these losses itself (SYN resend, server restart, DATA/SYNACK accepted after a restart), so this very pair must return connections with the client's N, deliver all messages in both directions within 600 virtual seconds and stay up. "
+             "with the client's first DATA packet or keepalive ping kept behind the expiry of the server's boosted handshake timeout, and in a third of the cases 0-4 stale packets of every type but SYN queued towards each side before the start (both handshakes ignore them); the handshake repairs each of these losses itself (SYN resend, server restart, DATA/SYNACK accepted after a restart), so this very pair must return connections with the client's N, deliver all messages in both directions within 600 virtual seconds and stay up. "
              "Non-trivial: a SYN/SYNACK was faulted or a stale packet preceded the first SYN; distinct by case."),
     "assumptions": ["convergence is checked with keepalive enabled (see DESIGN.md 5/C10)", "transport model vnet.Link"],
     "units": [
@@ -176,7 +176,7 @@ CHECKS["C07"] = {
     "rule": ("(1) every byte string of length 0..3, and of length 4 with first byte 0..7 (thorough: all 2^32 over 16 shards), through gbn.Deserialize; all strings <=2 bytes and a header/length grid through MsgData.Deserialize; "
              "(2) all 256 SYN N values against a live NewServerConn followed by SYNACK and one of four follow-ups (data / ACK+NACK with extreme values / another SYN / an honest receiver that acknowledges every DATA packet, after which the hook must report nothing outstanding); "
              "(3) for N in 1..3 (thorough: 1..4) a live client sender driven by a raw peer into every (base mod s, outstanding) state, then one ACK or NACK with each of the 256 sequence values, then 1.5 virtual seconds of running on (resend timer, more sends); "
-             "(4) rapid: up to 8 arbitrary/hostile packets injected before, during or after the handshake of a live pair; (5) Noise handshake and record stream fed mutated/truncated/random bytes, stripJSONWrapper+protojson on generated JSON-ish strings (mboxprop units); "
+             "(3b) TestC07MidResend: the same sender states with >= 2 packets outstanding (N in 2..4, thorough 2..6), every ACK/NACK value in 0..s and 255 delivered while the K-th packet of a retransmission round is being accepted by a transport that takes a millisecond to do so (every K), i.e. processed by the receive loop between two packets of the resend loop; (4) rapid: up to 8 arbitrary/hostile packets injected before, during or after the handshake of a live pair; (5) Noise handshake and record stream fed mutated/truncated/random bytes, stripJSONWrapper+protojson on generated JSON-ish strings (mboxprop units); "
              "native fuzzing of the decoders in the thorough tier. Oracle: no panic anywhere (a panic in a connection goroutine kills the worker and is attributed to the running case), Deserialize never returns both value and error, "
              "and the hook reports base,top < s, size <= n, s = n+1 after every step. Non-trivial: the input is not a well-formed packet for the state it is presented in or carries an out-of-range field; distinct by input."),
     "exhaustive_scope": "byte strings <=3 (and the stated 4-byte range); 256 SYN values x 3 follow-ups; all (N<=3, base, size, ACK|NACK, value) injections",
@@ -212,7 +212,7 @@ CHECKS["C04"] = {
     "rule": ("(1) exhaustive: all 81 (iMin,iMax,rMin,rMax) in {0,1,2}^4 x {XX,KK}, clean, and for every valid range all 4^3 (XX) / 4^2 (KK) substitutions of the acts' version bytes by 0..3; "
              "(2) exhaustive: every single-bit flip of every byte of every act for XX v0, v1, v2, XX negotiated 0..2 and KK; (3) rapid: payload sizes {0,1,497..501,65535..65537, up to 3 MiB}, nil payload, random multi-byte rewrites, random version substitutions. "
              "Oracle: if both sides return nil they agree on version (hook), hold complementary traffic keys (hook and a probe record each way), each other's true static key, the same SID and next pattern, onRemoteStatic fired on both or neither; "
-             "every party that completed holds a version inside its own configured [min,max]; an initiator that completed holds exactly the responder's payload, also when its ConnData already held auth data from an earlier handshake (drawn in a third of the rapid cases). Non-trivial: the relay changed a byte, or the negotiated version differs from a side's maximum; distinct by case."),
+             "every party that completed holds a version inside its own configured [min,max]; an initiator that completed holds exactly the responder's payload, also when its ConnData already held auth data from an earlier handshake (drawn in a third of the rapid cases), and still holds it after an unrelated pair of parties (other keys, another payload of the same length) has run its handshake in the same process (every clean completion). Non-trivial: the relay changed a byte, or the negotiated version differs from a side's maximum; distinct by case."),
     "exhaustive_scope": "81 ranges x 2 patterns x all version-byte substitutions; all single-bit flips of 5 handshakes",
     "assumptions": ["scrypt cost lowered by the verif hook"],
     "units": [
@@ -308,7 +308,7 @@ CHECKS["C15"] = {
 CHECKS["C05"] = {
     "level": "exploration",
     "rule": ("rapid-generated end-to-end runs in virtual time: mailbox.NewServerConn + NewClientConn over the in-memory relay (both cipher boxes pre-created), NoiseGrpcConn.ServerHandshake/ClientHandshake on top (XX, KK in 1/4), "
-             "0-8 writes per direction of 1..65535 bytes (boundaries 32767/32768/32769/65535), in 1/12 more than 500 small writes in one direction, in 1/6 a burst of 30-90 small writes back to back in one direction with 5-20% of 60-200 relay messages lost (the GBN window of 20 wraps several times with losses at every position of the lap), with concurrent readers, relay latency 0..200ms, and a finite per-message drop/delay script on each relay stream armed after the GBN handshake (1/4) or after the Noise handshake (3/4). "
+             "0-8 writes per direction of 1..65535 bytes (boundaries 32767/32768/32769/65535), in 1/12 more than 500 small writes in one direction (a third of those: in both directions at once), in 1/6 a burst of 30-90 small writes back to back in one direction with 5-20% of 60-200 relay messages lost (the GBN window of 20 wraps several times with losses at every position of the lap), with concurrent readers, relay latency 0..200ms, and a finite per-message drop/delay script on each relay stream armed after the GBN handshake (1/4) or after the Noise handshake (3/4). "
              "Oracles: bytes read on each side are a prefix of the bytes written on the other; 300 virtual seconds after the scripts are exhausted either both streams are complete or both sides have observed a Read/Write error; "
              "no CipherBox payload the relay ever saw contains the first or a middle 16-byte window of any written plaintext >= 16 bytes or of the auth payload; the client's AuthData equals the server's. "
              "A second, real-time family (TestC05RealTime, 32 conversations concurrently per batch) injects stream errors (the next 1-2 Send or Recv calls on a relay stream fail), relay outages (down/up) and, in a third of the cases, 9-20 s of silence (every message swallowed, longer than the 5s/7s+3s keepalive periods) at drawn moments during a paced transfer, in half of the cases on the second connection of the session (both ends closed and refreshed with RefreshClientConn / RefreshServerConn); same safety and confidentiality oracles, progress bound 90 real seconds after the relay is healthy again. Non-trivial: a relay fault was applied and a write >= 16 bytes was transferred; distinct by case."),
@@ -323,7 +323,7 @@ CHECKS["C11"] = {
     "level": "exploration",
     "rule": ("model-based generated session histories over mailbox.Server (accept loop as a grpc server runs it) and mailbox.Client (Dial) on the in-memory relay, in REAL time (the mailbox conns sleep in their re-connect back-off under the mutex Close needs, "
              "which a synctest bubble cannot schedule), 40 sessions concurrently per batch: actions connect (with drawn Dial offset; optionally Dial issued while the previous connection is still open), transfer (echo of 1..40000 bytes), close_client, close_server, wait, "
-             "intruder (a second client that only knows the passphrase), relay_restart (the relay forgets every mailbox and queued message and breaks every stream, as a restarted hashmail server does; both sides give the connection up and the next connect must work), server max handshake version 0/1/2. Invariants: Accept / Dial never return while the connection previously handed out by the same object has an open Done(); "
+             "intruder (a second client that only knows the passphrase), junk (between two connections one frame that is no GBN packet is queued towards the server: the accept attempt that reads it fails with a temporary error, the next one must work), relay_restart (the relay forgets every mailbox and queued message and breaks every stream, as a restarted hashmail server does; both sides give the connection up and the next connect must work), server max handshake version 0/1/2. Invariants: Accept / Dial never return while the connection previously handed out by the same object has an open Done(); "
              "after a close a working secured connection (echo succeeds) is re-established within 12 dial attempts; after a version-2 pairing both ConnData agree on a new SID different from the passphrase SID, hold each other's true key, "
              "the next connection uses the KK pattern on the key-derived stream ids; a version 0/1 pairing stores no key; the passphrase-only client never completes a handshake nor obtains the auth payload after the switch; in 2/5 of the sessions the first 1-2 DelCipherBox calls of the relay fail (they occur when the server tears down the passphrase mailboxes); "
              "the peer of a closed side notices within 30s. In half of the sessions the context given to Dial is cancelled as soon as Dial returns (dialer convention). "
